@@ -916,7 +916,16 @@ func main() {
 	}
 
 	// 4. hash to curve: RFC vectors, determinism, DST dependence, subgroup
-	for _, s := range suites() {
+	for _, s0 := range suites() {
+		s := s0
+		// never panic out of the harness: a panic of the implementation is an observable (an error)
+		rawHash := s0.hash
+		s.hash = func(dst string, msg []byte) (x, y string, sub bool, err error) {
+			if p := vh.Safely(func() { x, y, sub, err = rawHash(dst, msg) }); p != "" {
+				return "", "", false, fmt.Errorf("panic: %s", trunc(p))
+			}
+			return x, y, sub, err
+		}
 		var vf vecFile
 		if b, err := os.ReadFile(filepath.Join(corpusDir, "rfc9380", s.file)); err == nil && json.Unmarshal(b, &vf) == nil {
 			for vi, v := range vf.Vectors {
